@@ -163,6 +163,14 @@ pub fn check_string(s: &str, hosts: &[usize]) -> Result<Info, (usize, String, Fa
             if got != engine::Out::Val(want) {
                 return Err((h, t.clone(), Fail::new("find", format!("{:?} (str::find)", want), format!("{} with pattern {:?}", got.show(), pat))));
             }
+            // every later occurrence as well (searches that start behind the beginning of the text)
+            if !s.is_empty() {
+                let wants: Vec<(usize, usize)> = t.match_indices(s).map(|(i, _)| (i, i + s.len())).collect();
+                let gots = engine::find_iter_spans(&re, t, t.len() + 3);
+                if gots != engine::Out::Val((wants.clone(), None)) {
+                    return Err((h, t.clone(), Fail::new("find_iter", format!("{:?} (str::match_indices)", wants), format!("{} with pattern {:?}", gots.show(), pat))));
+                }
+            }
             if HOSTS[h].0 == "(\\d{0})(E)(?=)" {
                 let c = engine::captures_from_pos(&re, t, 0);
                 let wantc = want.map(|w| vec![Some(w), Some((w.0, w.0)), Some(w)]);
@@ -274,7 +282,7 @@ fn violation(s: &str, hosts: &[usize], f: Fail) -> Violation {
 
 pub fn run(ctx: &RunCtx) -> Outcome {
     let mut o = Outcome::default();
-    o.rule = format!("strings: every string of length <= L over {} characters (all regex meta-characters, - & ~ # space newline tab , : < > = ! ', the letters that form escapes after a backslash, digits, é € 😀) exhaustively, plus proptest strings of length 4..12; each escaped and embedded in {} host patterns (bare, (?=)E, (?:E), (?>E), (E), (?=E)E, E(?<=E), (?-i:E), (?:E|(?!)), two hosts that put E into one delegated piece together with empty-matching class repeats, (?x:E) for whitespace-free strings, three hosts built with RegexBuilder::case_insensitive(true) around (?-i:E), E as the second group of a delegated run with its span compared, two (?i) hosts for strings without cased characters, and five hosts that escape the two halves of the string separately (nested look-arounds starting at different positions, an atomic group inside a look-behind, redundant (?:..) groups as the whole body of a look-around)) that cannot change what E matches; pair stage: every ordered pair of non-empty strings of length <= 2 (thorough: first <= 3) over the characters . + ( | \\ $ # - space a b é ! as the two alternatives of (?<=E1|E2)!, (?<!E1|E2)! and (?:E1|E2)(?=!), expected spans computed with str methods. Oracle: the host compiles; on texts built from the string (itself, embedded after a multi-byte prefix, doubled, near misses with one character changed or dropped, a case-swapped occurrence in front) find == str::find; escape borrows iff nothing needed escaping and only inserts backslashes before special characters. Non-trivial = the string has a meta-character and occurs at an offset > 0. Distinct = distinct (string, host, text).", ALPHA.len(), HOSTS.len());
+    o.rule = format!("strings: every string of length <= L over {} characters (all regex meta-characters, - & ~ # space newline tab , : < > = ! ', the letters that form escapes after a backslash, digits, é € 😀) exhaustively, plus proptest strings of length 4..12; each escaped and embedded in {} host patterns (bare, (?=)E, (?:E), (?>E), (E), (?=E)E, E(?<=E), (?-i:E), (?:E|(?!)), two hosts that put E into one delegated piece together with empty-matching class repeats, (?x:E) for whitespace-free strings, three hosts built with RegexBuilder::case_insensitive(true) around (?-i:E), E as the second group of a delegated run with its span compared, two (?i) hosts for strings without cased characters, and five hosts that escape the two halves of the string separately (nested look-arounds starting at different positions, an atomic group inside a look-behind, redundant (?:..) groups as the whole body of a look-around)) that cannot change what E matches; pair stage: every ordered pair of non-empty strings of length <= 2 (thorough: first <= 3) over the characters . + ( | \\ $ # - space a b é ! as the two alternatives of (?<=E1|E2)!, (?<!E1|E2)! and (?:E1|E2)(?=!), expected spans computed with str methods. Oracle: the host compiles; on texts built from the string (itself, embedded after a multi-byte prefix, doubled, near misses with one character changed or dropped, a case-swapped occurrence in front) find == str::find and find_iter == str::match_indices; escape borrows iff nothing needed escaping and only inserts backslashes before special characters. Non-trivial = the string has a meta-character and occurs at an offset > 0. Distinct = distinct (string, host, text).", ALPHA.len(), HOSTS.len());
     o.assumptions = vec!["oracle: str::find".into()];
     o.required_classes = vec!["string:has-meta-character".into(), "string:plain".into(), "pair:longer-first".into(), "pair:shorter-first".into()];
     let all_hosts: Vec<usize> = (0..HOSTS.len()).collect();
